@@ -33,6 +33,8 @@ def run(prog, chk):
     ]
     chk.decided += ["an insertion marker is a comment that *is* the marker: the pattern is matched anchored at the start of the comment (re.match / fullmatch), and the marker pattern itself starts "
                     "with the comment sign - a user's comment that merely mentions the marker text is left alone (R17.11)"]
+    chk.decided += ["when a generated mark class collides with a class of that name the user already wrote (same glyph, other anchor), every later mark of that anchor goes to the renamed class too: "
+                    "the class name handed to _defineMarkClass follows the class the previous definition landed in, so the user's class is never extended (R17.12)"]
     chk.not_decided += ["index arithmetic of marker placement", "GSUB byte identity", "feaLib's asFea() round trip"]
     chk.decided += ["a generated feature is inserted as its own top-level block; a user's block only ever loses statements in _insert (R17.9, shared with C20)"]
     chk.decided += ["what the user's GDEF table defines (glyph classes; ligature carets by position or by index - classes read from fontTools) is not generated again (R17.10)"]
@@ -47,6 +49,7 @@ def run(prog, chk):
     chk.guard(check_generated_blocks_top_level, prog, chk, "R17.9")
     chk.guard(r1710, prog, chk)
     chk.guard(r1711, prog, chk)
+    chk.guard(r1712, prog, chk)
 
 
 # ----------------------------------------------------------------------------- R17.1
@@ -654,7 +657,38 @@ def r1711(prog, chk):
     chk.minimum("R17.11", 2)
 
 
+# ----------------------------------------------------------------------------- R17.12
+def r1712(prog, chk):
+    ix = prog.ix
+    f = ix.get_method("ufo2ft.featureWriters.markFeatureWriter.MarkFeatureWriter", "_makeMarkClassDefinitions", own=True)
+    calls = [c for c in calls_named(f, "_defineMarkClass")]
+    need(len(calls) == 1, f"cannot interpret {f.short}: _defineMarkClass call")
+    c = calls[0]
+    a = A.arg_at(c, 3, "className")
+    loops = [x for x in ix.ancestors(c) if isinstance(x, ast.For)]
+    st = ix.enclosing_stmt(c)
+    res = st.targets[0].id if isinstance(st, ast.Assign) and isinstance(st.targets[0], ast.Name) else None
+    ok = isinstance(a, ast.Name) and bool(loops) and res is not None
+    if ok:
+        follow = [s_ for s_ in ast.walk(loops[0]) if isinstance(s_, ast.Assign) and any(isinstance(t, ast.Name) and t.id == a.id for t in s_.targets)
+                  and T(s_.value) == f"{res}.markClass.name"]
+        ok = len(follow) == 1 and any(o == "isnot" and l == res and r == "None" for o, l, r in facts(prog, f, follow[0]))
+        if ok:
+            # ... and that rebinding reaches the next iteration's call (loop-carried), i.e. the name is not reset inside the inner loop
+            resets = [s_ for s_ in ast.walk(loops[0]) if isinstance(s_, ast.Assign) and any(isinstance(t, ast.Name) and t.id == a.id for t in s_.targets) and s_ is not follow[0]]
+            ok = not resets
+        # the class remembered for the anchor is looked up under the current name
+        sts = [(s_, t, v) for s_, t, v in subscript_stores(f) if any(x is loops[0] for x in ix.ancestors(s_))]
+        ok = ok and len(sts) == 1 and isinstance(sts[0][2], ast.Subscript) and T(sts[0][2].slice) == a.id
+    chk.ob("R17.12", f"{f.short}|after a name clash the renamed class is used for the rest of the anchor's marks", ok, where(f, c), detail="className = mcd.markClass.name (loop-carried); allMarkClasses[key] = currentClasses[className]",
+           message=f"{f.short}: after a generated definition had to go to a renamed class (the user already defines a class of that name for this glyph with another anchor), later marks are "
+                   f"still defined under the original name: the user's own mark class is extended with generated glyphs and the user's rules on it change")
+    chk.minimum("R17.12", 1)
+
+
 MUTANTS = [
+    M("after a name clash later marks still go to the user's class (seeded C17l)", "ufo2ft/featureWriters/markFeatureWriter.py", "MarkFeatureWriter._makeMarkClassDefinitions",
+      "className = mcd.markClass.name", "pass", rule="R17.12"),
     M("marker pattern searched anywhere in the comment (seeded C17j)", "ufo2ft/featureWriters/ast.py", "findCommentPattern",
       "re.match(pattern, str(statement))", "re.search(pattern, str(statement))", rule="R17.11"),
     M("marker pattern compiled once, still anchored", "ufo2ft/featureWriters/ast.py", "findCommentPattern",
